@@ -179,8 +179,23 @@ func c12RunUDP(run *vk.Run, cs c12UDPCase, budget *c12Budget) {
 		chunks = vk.RandPartition(rand.New(rand.NewSource(cs.ChunkSeed)), cs.Cut, cs.ChunkMax)
 	}
 	var endErr error = io.EOF
-	if cs.End == "err" {
+	once := false
+	switch cs.End {
+	case "err":
 		endErr = c12ErrReset
+	case "timeout-sticky": // e.g. an expired deadline / QUIC idle timeout: every later Read fails the same way
+		endErr = c12NetErr{timeout: true}
+	case "timeout-temp-sticky":
+		endErr = c12NetErr{timeout: true, temporary: true}
+	case "timeout-temp-once": // one transient timeout, then the REST of the stream and EOF
+		once = true
+	}
+	endTunnel := func() {
+		if once {
+			tun.FeedTransient(c12NetErr{timeout: true, temporary: true})
+		} else {
+			tun.FeedEnd(endErr)
+		}
 	}
 
 	w := &c12Watch{done: make(chan struct{})}
@@ -218,7 +233,7 @@ func c12RunUDP(run *vk.Run, cs c12UDPCase, budget *c12Budget) {
 		if waitOut == "returned" {
 			run.Violation("C12:udp|returned-before-tunnel-ended", detail(nil))
 		}
-		tun.FeedEnd(endErr)
+		endTunnel()
 	case "sending":
 		h := len(toTunnel) / 2
 		for _, d := range toTunnel[:h] {
@@ -231,11 +246,11 @@ func c12RunUDP(run *vk.Run, cs c12UDPCase, budget *c12Budget) {
 			tun.onEnd = func() { loc.Feed(first) } // a datagram arrives exactly at the cut
 		}
 		if cs.EndEarly {
-			tun.FeedEnd(endErr)
+			endTunnel()
 			start()
 		} else {
 			start()
-			tun.FeedEnd(endErr)
+			endTunnel()
 		}
 		for _, d := range rest {
 			runtime.Gosched()
@@ -243,14 +258,21 @@ func c12RunUDP(run *vk.Run, cs c12UDPCase, budget *c12Budget) {
 		}
 	default:
 		if cs.EndEarly {
-			tun.FeedEnd(endErr)
+			endTunnel()
 			start()
 		} else {
 			start()
-			tun.FeedEnd(endErr)
+			endTunnel()
 		}
 	}
 
+	if once {
+		// a relay may treat the transient error as the end (returns) or go on reading; either
+		// way the rest of the stream is offered, followed by EOF
+		run.Count("transient_wait_"+w.until(tun.TransientSeen), 1)
+		tun.Feed(stream[cs.Cut:])
+		tun.FeedEnd(io.EOF)
+	}
 	// the tunnel has ended (or failed): UDP() must return
 	hangSig := "C12:udp|cut=" + sigCut + "|mode=hang"
 	w.quick = budget.exhausted(hangSig)
@@ -284,7 +306,19 @@ func c12RunUDP(run *vk.Run, cs c12UDPCase, budget *c12Budget) {
 
 	// tunnel -> local
 	got := loc.Outs()
-	if c := c12CmpDgrams(got, expect); c != "equal" {
+	if once {
+		// everything complete before the transient error, then any correct continuation
+		if c := c12CmpDgrams(got, toLocal); (c != "equal" && c != "missing") || len(got) < len(expect) {
+			run.Violation("C12:udp|dir=tunnel>local|cut="+sigCut+"|end=transient|got=wrong", detail(map[string]any{"compare": c, "got_count": len(got)}))
+		} else {
+			run.Count("datagrams_delivered_checked", int64(len(got)))
+			if len(got) > len(expect) {
+				run.Count("relay_continued_after_transient_timeout", 1)
+			} else if len(expect) < len(toLocal) {
+				run.Count("relay_ended_at_transient_timeout", 1)
+			}
+		}
+	} else if c := c12CmpDgrams(got, expect); c != "equal" {
 		cls := c
 		if len(c) > 7 && c[:7] == "differs" {
 			cls = "content-or-boundary"
@@ -365,7 +399,7 @@ func TestVerifC12UDPCuts(t *testing.T) {
 	vk.Quiet()
 	run := vk.Start(t, "C12", "udp-cuts-exhaustive")
 	defer run.Finish()
-	run.Rule("short datagram sequences (sizes from {1,2,3,255,256}, encoded <= 512 B); the encoded tunnel stream is cut at EVERY byte offset 0..len, ended by EOF and by an error, under 3 read chunkings (whole, byte-wise, seeded random); local UDP side seeded {silent, fell silent before the cut after sending, sending across the cut (+ tunnel writes failing after an error cut)}; distinct = (sequence, fine cut class, end kind, chunking, local mode)")
+	run.Rule("short datagram sequences (sizes from {1,2,3,255,256}, encoded <= 512 B); the encoded tunnel stream is cut at EVERY byte offset 0..len, ended by EOF, by an error, by a sticky timeout net.Error (Temporary or not) and interrupted by ONE transient timeout after which the rest of the stream and EOF follow, under 3 read chunkings (whole, byte-wise, seeded random); local UDP side seeded {silent, fell silent before the cut after sending, sending across the cut (+ tunnel writes failing after an error cut)}; distinct = (sequence, fine cut class, end kind, chunking, local mode)")
 	run.Exhaustive(true)
 	before := vk.SnapshotGoroutines()
 	r := run.Rand("gen")
@@ -399,7 +433,7 @@ func TestVerifC12UDPCuts(t *testing.T) {
 		}
 		for cut := 0; cut <= enc; cut++ {
 			class, fine, _ := c12CutClass(sizes, cut)
-			for _, end := range []string{"eof", "err"} {
+			for _, end := range []string{"eof", "err", "timeout-sticky", "timeout-temp-sticky", "timeout-temp-once"} {
 				for _, ch := range []string{"whole", "bytes", "rand"} {
 					cs := c12UDPCase{Idx: len(cases), Seq: si, Sizes: sizes, EncLen: enc, Cut: cut, CutClass: class, CutFine: fine,
 						End: end, Chunking: ch, ChunkMax: []int{2, 3, 5, 64}[r.Intn(4)], ChunkSeed: r.Int63(), PatternKey: r.Uint64() >> 1}
@@ -418,7 +452,10 @@ func TestVerifC12UDPCuts(t *testing.T) {
 		c12RunUDP(run, cases[i], budget)
 	})
 	c12UDPLeak(run, before)
-	for _, k := range []string{"cut_prefix_eof", "cut_prefix_err", "cut_body_eof", "cut_body_err", "cut_boundary_eof", "cut_boundary_err"} {
+	for _, k := range []string{"cut_prefix_eof", "cut_prefix_err", "cut_body_eof", "cut_body_err", "cut_boundary_eof", "cut_boundary_err",
+		"cut_prefix_timeout-sticky", "cut_body_timeout-sticky", "cut_boundary_timeout-sticky",
+		"cut_prefix_timeout-temp-sticky", "cut_body_timeout-temp-sticky", "cut_boundary_timeout-temp-sticky",
+		"cut_prefix_timeout-temp-once", "cut_body_timeout-temp-once", "cut_boundary_timeout-temp-once"} {
 		run.Floor(k, 30)
 	}
 	run.Floor("local_idle", 50)
@@ -495,7 +532,7 @@ func TestVerifC12UDPLong(t *testing.T) {
 		}
 		for _, cut := range cuts {
 			class, fine, _ := c12CutClass(sizes, cut)
-			end := []string{"eof", "err"}[r.Intn(2)]
+			end := []string{"eof", "err", "eof", "err", "timeout-sticky", "timeout-temp-sticky", "timeout-temp-once"}[r.Intn(7)]
 			for _, ch := range []string{"whole", "rand-mtu", "rand-big"} {
 				cs := c12UDPCase{Idx: len(cases), Seq: si, Sizes: sizes, EncLen: tot, Cut: cut, CutClass: class, CutFine: fine,
 					End: end, Chunking: ch, ChunkSeed: r.Int63(), PatternKey: r.Uint64() >> 1}
